@@ -26,6 +26,8 @@ class Outcome:
         self.refuted = []   # list of (lo_ord tuple, hi_ord tuple, info)
         self.unknown = []   # point boxes neither proved nor refuted
         self.max_level_size = 0
+        self.region_refuted = 0   # refuted boxes inside the caller's named region (tallied, not capped)
+        self.region_example = None
 
 
 def probe_points(l, h):
@@ -51,7 +53,7 @@ def probe_points(l, h):
     return pts
 
 
-def refine(lo, hi, judge, max_boxes=6_000_000, chunk=400_000, max_refuted=20, probe_limit=300_000):
+def refine(lo, hi, judge, max_boxes=6_000_000, chunk=400_000, max_refuted=20, probe_limit=300_000, region=None):
     """lo, hi: int64 arrays [N, D] of ordinals (inclusive).  judge(lo, hi) -> (proved, refuted, describe(i) -> str[, split dimension per box])."""
     out = Outcome()
     lo = np.asarray(lo, dtype=np.int64)
@@ -70,8 +72,15 @@ def refine(lo, hi, judge, max_boxes=6_000_000, chunk=400_000, max_refuted=20, pr
             out.proved += int(proved.sum())
             out.proved_points += int((proved & point).sum())
             if refuted.any():
-                for i in np.nonzero(refuted)[0][: max_refuted - len(out.refuted)]:
-                    out.refuted.append((tuple(int(v) for v in l[i]), tuple(int(v) for v in h[i]), describe(i) if describe else ""))
+                for i in np.nonzero(refuted)[0]:
+                    lo_i, hi_i = tuple(int(v) for v in l[i]), tuple(int(v) for v in h[i])
+                    if region is not None and region(lo_i, hi_i):
+                        out.region_refuted += 1
+                        if out.region_example is None:
+                            out.region_example = describe(i) if describe else ""
+                        continue
+                    if len(out.refuted) < max_refuted:
+                        out.refuted.append((lo_i, hi_i, describe(i) if describe else ""))
             open_ = ~proved & ~refuted
             unk = open_ & point
             if unk.any():
